@@ -682,6 +682,7 @@ func checkC06(w *World, r *Report) {
 	c06NodeRemoval(w, r, ra)
 	c06TakeoverComplete(w, r, ra)
 	c06UpdateKeepsOrder(w, r, ra)
+	c06WalkersAgree(w, r, ra)
 	// a rejected change leaves the live tree untouched only if the working copy shares nothing with it
 	c07Clone(w, r, ra)
 }
